@@ -8,6 +8,7 @@ VERIF = os.path.dirname(os.path.dirname(os.path.abspath(__file__)))
 REPO = os.environ.get('VERIF_REPO', '/repo')
 TOOL = os.path.join(VERIF, 'build', 'tmcgfacts')
 CACHE = os.path.join(VERIF, 'build', 'facts')
+ROOT_MARK = '@TMCG-ROOT@'
 
 
 class AnalysisBroken(Exception):
@@ -73,19 +74,25 @@ def run_unit(unit, repo, ndebug, root, hh):
     h.update(os.path.basename(unit).encode())
     h.update(open(unit, 'rb').read())
     h.update(b'nd' if ndebug else b'd')
+    h.update(b'cache-format-2')
     os.makedirs(os.path.join(CACHE, 'units'), exist_ok=True)
     out = os.path.join(CACHE, 'units', h.hexdigest()[:24] + '.json')
     if os.path.exists(out):
-        os.utime(out)
+        try:
+            os.utime(out)
+        except OSError:
+            pass
         return out, ''
-    tmp = out + '.tmp%d' % os.getpid()
-    with open(tmp, 'wb') as fo:
-        p = subprocess.run([TOOL, '--root=' + root, unit, '--'] + flags(repo, ndebug), stdout=fo, stderr=subprocess.PIPE)
+    tmp = out + '.tmp%d.%d' % (os.getpid(), hash(unit) & 0xffff)
+    p = subprocess.run([TOOL, '--root=' + root, unit, '--'] + flags(repo, ndebug), stdout=subprocess.PIPE, stderr=subprocess.PIPE)
     if p.returncode != 0:
-        os.unlink(tmp)
         return None, p.stderr.decode(errors='replace')[-2000:]
-    open(out + '.origin', 'w').write(repo)
-    os.rename(tmp, out)
+    # stored root-independently (the same content parsed under another root is the same entry);
+    # written to a private temporary and renamed, so concurrent checks never see a partial file
+    txt = p.stdout.decode(errors='replace').replace('"' + repo + '/', '"' + ROOT_MARK + '/')
+    with open(tmp, 'w') as fo:
+        fo.write(txt)
+    os.replace(tmp, out)
     return out, ''
 
 
@@ -102,14 +109,20 @@ def extract(repo=REPO, ndebug=False, units=None, root=None, tag='lib'):
     bad = [(u, e) for u, (o, e) in zip(units, res) if o is None]
     if bad:
         raise AnalysisBroken('units failed to parse: ' + '; '.join('%s: %s' % (u, e.strip().splitlines()[-1] if e.strip() else '?') for u, e in bad))
-    # prune: keep the 400 most recently used unit files
-    fs = sorted(glob.glob(os.path.join(CACHE, 'units', '*.json')), key=os.path.getmtime)
-    for f in fs[:-400]:
-        try:
-            os.unlink(f)
-            os.unlink(f + '.origin')
-        except OSError:
-            pass
+    # prune: keep the 1500 most recently used unit files, and never remove one used in the last two
+    # hours (other checks may be running on other trees at the same time)
+    try:
+        fs = sorted(glob.glob(os.path.join(CACHE, 'units', '*.json')), key=os.path.getmtime)
+        now = time.time()
+        for f in fs[:-1500]:
+            if now - os.path.getmtime(f) < 7200:
+                continue
+            try:
+                os.unlink(f)
+            except OSError:
+                pass
+    except OSError:
+        pass
     return [o for o, _ in res]
 
 
@@ -125,13 +138,7 @@ class Program:
         self.globals = {}
         self.units = []
         for f in files:
-            txt = open(f).read()
-            try:
-                origin = open(f + '.origin').read()
-            except OSError:
-                origin = repo
-            if origin != repo:
-                txt = txt.replace('"' + origin + '/', '"' + repo + '/')
+            txt = open(f).read().replace('"' + ROOT_MARK + '/', '"' + repo + '/')
             d = json.loads(txt)
             self.units.append(d['unit'])
             for fn in d['functions']:
